@@ -918,3 +918,96 @@ theorem retained_run {s : WSess} {k v : String} {exp : Int} (evs : List Event) (
     · exact hfresh
 
 end Gonuts.Model.Wire
+
+namespace Gonuts.Model.Wire
+open Gonuts.Model.Mint
+
+/-! ## The answer of an executed request -/
+
+/-- The response `runHandler` writes for the outcome of the operation. -/
+def respOf (h : Handler) : Except E Json → Response
+  | .ok t => ok200 t
+  | .error e => errResp (mapErr h e)
+
+/-- Not served from the cache: the handler is not a cached one, or the key is absent. -/
+def Miss (s : WSess) (h : Handler) (r : Request) : Prop := isCached h = false ∨ s.cache.lookup r.key = none
+
+theorem runHandler_miss {s : WSess} {h : Handler} {p : Parsed} {op : Op} {r : Request} (hm : Miss s h r) :
+    (runHandler s h p op r).1.mint = (execOp p op (armLn s.mint r.lnFail)).1 ∧
+    (runHandler s h p op r).2.1 = respOf h (execOp p op (armLn s.mint r.lnFail)).2 := by
+  unfold runHandler
+  by_cases hc : isCached h = true
+  · have hl : s.cache.lookup r.key = none := by
+      rcases hm with hm | hm
+      · rw [hc] at hm; simp at hm
+      · exact hm
+    simp only [hc, if_true]
+    rw [get_none hl]
+    simp only
+    cases hx : execOp p op (armLn s.mint r.lnFail) with
+    | mk m1 res =>
+      cases res with
+      | error e => exact ⟨rfl, rfl⟩
+      | ok t => simp only; split <;> exact ⟨rfl, rfl⟩
+  · simp only [hc]
+    cases hx : execOp p op (armLn s.mint r.lnFail) with
+    | mk m1 res => cases res <;> exact ⟨rfl, rfl⟩
+
+theorem runHandler_hit {s : WSess} {h : Handler} {p : Parsed} {op : Op} {r : Request} {v : String} {e : Int}
+    (hc : isCached h = true) (hl : s.cache.lookup r.key = some (v, e)) :
+    runHandler s h p op r =
+      ({ s with cache := if expired s.now e then s.cache.del r.key else s.cache }, ⟨200, v⟩, .hit r.key) := by
+  unfold runHandler
+  simp only [hc, if_true]
+  rw [get_some hl]
+
+def exceptOk {ε α : Type} : Except ε α → Bool
+  | .ok _ => true
+  | .error _ => false
+
+theorem respOf_status (h : Handler) (x : Except E Json) :
+    (respOf h x).status = if exceptOk x then 200 else 400 := by
+  cases x <;> rfl
+
+/-- Each operation answers with its own result constructor. -/
+theorem applyOp_shape (m : Sess) (op : Op) :
+    match op with
+    | .mintQuote .. => ∃ x, (applyOp m op).2 = .mintQuote x
+    | .quoteState .. => ∃ x, (applyOp m op).2 = .quoteState x
+    | .mint .. => ∃ x, (applyOp m op).2 = .sigs x
+    | .swap .. => ∃ x, (applyOp m op).2 = .sigs x
+    | .meltQuote .. => ∃ x, (applyOp m op).2 = .meltQuote x
+    | .melt .. => ∃ x, (applyOp m op).2 = .melt x
+    | .meltState .. => ∃ x, (applyOp m op).2 = .melt x
+    | .checkState .. => ∃ x, (applyOp m op).2 = .states x
+    | .restore .. => ∃ x, (applyOp m op).2 = .restored x
+    | _ => True := by
+  cases op <;> simp only [applyOp] <;> first
+    | trivial
+    | exact ⟨_, rfl⟩
+    | (split <;> exact ⟨_, rfl⟩)
+    | (split <;> split <;> exact ⟨_, rfl⟩)
+
+/-- The handler's tree is a success exactly when the operation's result is. -/
+theorem execOp_ok {h : Handler} {p : Parsed} {r : Request} {op : Op} (hop : opOf h p r = some op) (m : Sess) :
+    exceptOk (execOp p op m).2 = Res.isOk (applyOp m op).2 := by
+  unfold execOp
+  simp only
+  have hs := applyOp_shape m op
+  cases h <;> cases p <;> simp [opOf] at hop <;> subst hop <;> simp only at hs <;> obtain ⟨x, hx⟩ := hs <;>
+    rw [hx] <;> cases x <;> rfl
+
+theorem errTree_keys (e : E) (h : e.1 ≠ 0) : (errTree e).keys = ["detail", "code"] := by
+  unfold errTree
+  have : (e.1 == 0) = false := by simpa using h
+  simp [this, Json.keys]
+
+theorem errTree_code (e : E) (h : e.1 ≠ 0) : (errTree e).field? "code" = some (.num e.1) := by
+  unfold errTree
+  have : (e.1 == 0) = false := by simpa using h
+  simp [this, Json.field?, List.find?]
+
+/-- `json.Marshal` of a Go `error` that is not a cashu error. -/
+theorem errTree_raw (name : String) : errTree (0, name) = .obj [] := rfl
+
+end Gonuts.Model.Wire
